@@ -222,4 +222,6 @@ def run(col, configs, tier):
         guarded(col, X.rule_naive_count_stages, facts)
         guarded(col, X.rule_zero_exponent_normalised, facts)
         guarded(col, X.rule_break_magnitude, facts)
+        guarded(col, X.rule_radix_delta_positive, facts)
+        guarded(col, X.rule_integer_buffer_nondecimal, facts)
         guarded(col, F.rule_entry_validation, facts)
